@@ -53,6 +53,8 @@ def scripts(tier):
          "P,R10,T,P,R10,P,P,T,P",                # delivery between polls of one batch
          "P,R12,T,P,R10,T,P,P,T",                # lower number delivered after the scan passed it
          "P,C,T,P,P",                            # close wakes a parked task; the stream ends, stays ended
+         "P,C,T,P,R10,T,P,R12,P,P",              # deliveries after the stream has ended: it stays ended
+         "R10,C,P,P,R10,P",
          "C,P,T,P",                              # closed before the first poll
          "P,R10,C,T,P,P",                        # delivery then close
          "R10,R10,R10,P,P,T,P",                  # collation
